@@ -5,6 +5,7 @@ import (
 	"encoding/json"
 	"fmt"
 	"os"
+	"reflect"
 	"strings"
 	"sync"
 	"testing"
@@ -17,6 +18,7 @@ import (
 	math "github.com/IBM/mathlib"
 	"verif/backend/s"
 	"verif/checks/boxlib"
+	"verif/dump"
 	"verif/explore"
 	"verif/harness"
 	"verif/shim/sched"
@@ -219,7 +221,14 @@ func kgRun(c *harness.C, backend string, t int, variant string, r *explore.Recor
 			}
 			from := from
 			sc.Go(fmt.Sprintf("D%d", from), func() {
-				if variant != "early" {
+				if variant == "during-init" {
+					// the peers send as soon as they see the party's "initialised" flag (read while
+					// the system is quiescent): nothing arrives before Init has set it
+					sched.WaitUntil(func() bool {
+						f, ok := dump.Field(x, "init")
+						return !ok || f.Kind() != reflect.Bool || f.Bool()
+					})
+				} else if variant != "early" {
 					<-inited
 				}
 				for _, m := range msgs[from] {
@@ -239,6 +248,57 @@ func kgRun(c *harness.C, backend string, t int, variant string, r *explore.Recor
 		o.deadlock = sc.Deadlock
 		o.unfin = sc.WaitAll()
 		o.trace = sc.Trace
+	})
+	if rec != nil && !harness.IsLeakPanic(rec) {
+		panic(rec)
+	}
+	return o
+}
+
+// liveRun: two real instances run a complete 2-of-2 key generation against each other, each in its
+// own thread; what party 2 sends to party 1 is delivered (in party 2's thread) as soon as party 1's
+// "initialised" flag is set - possibly while party 1 is still inside Init. Both must complete.
+func liveRun(c *harness.C, backend string, r *explore.Recorder) *kgOut {
+	o := &kgOut{}
+	rec := c.Bubble(func() {
+		parties := []uint16{1, 2}
+		x1, x2 := newKG(backend, 1), newKG(backend, 2)
+		sc := sched.New()
+		defer sc.Close()
+		sc.Quantum, sc.Horizon = 3*time.Second, 3
+		inited1 := func() bool {
+			f, ok := dump.Field(x1, "init")
+			return !ok || f.Kind() != reflect.Bool || f.Bool()
+		}
+		x2.Init(parties, 2, func(msg []byte, bc bool, to uint16) {
+			sched.WaitUntil(inited1)
+			x1.OnMsg(append([]byte(nil), msg...), 2, bc)
+		})
+		var err1, err2 error
+		sc.Go("P1", func() {
+			x1.Init(parties, 2, func(msg []byte, bc bool, to uint16) {
+				x2.OnMsg(append([]byte(nil), msg...), 1, bc)
+			})
+			ctx, cancel := context.WithTimeout(context.Background(), 5*time.Second)
+			defer cancel()
+			_, err1 = x1.KeyGen(ctx)
+		})
+		sc.Go("P2", func() {
+			ctx, cancel := context.WithTimeout(context.Background(), 5*time.Second)
+			defer cancel()
+			_, err2 = x2.KeyGen(ctx)
+		})
+		sc.Run(r)
+		o.deadlock = sc.Deadlock
+		o.unfin = sc.WaitAll()
+		o.trace = sc.Trace
+		if len(o.unfin) == 0 {
+			if err1 != nil {
+				o.err = fmt.Errorf("party 1: %v", err1)
+			} else if err2 != nil {
+				o.err = fmt.Errorf("party 2: %v", err2)
+			}
+		}
 	})
 	if rec != nil && !harness.IsLeakPanic(rec) {
 		panic(rec)
@@ -441,7 +501,7 @@ func gen(c *harness.C) []harness.Case {
 	}
 	for _, be := range []string{"bls", "ps"} {
 		for _, t := range []int{3, 2} {
-			for _, v := range []string{"after-init", "early", "dup", "one-in-phase", "one-reveal-early", "one-dup", "one-late-share", "one-late-commit", "one-late-reveal"} {
+			for _, v := range []string{"after-init", "early", "during-init", "dup", "one-in-phase", "one-reveal-early", "one-dup", "one-late-share", "one-late-commit", "one-late-reveal"} {
 				be, t, v := be, t, v
 				name := fmt.Sprintf("keygen/%s/t%d/%s", be, t, v)
 				bd := b3
@@ -469,6 +529,21 @@ func gen(c *harness.C) []harness.Case {
 			}
 		}
 	}
+	for _, be := range []string{"bls", "ps"} {
+		be := be
+		name := fmt.Sprintf("keygen/%s/live/during-init", be)
+		fams = append(fams, fam{name: name, bound: b3,
+			run: func(c *harness.C, r *explore.Recorder) ([]string, bool, []string) {
+				o := liveRun(c, be, r)
+				if o.err != nil && !o.deadlock {
+					// all-honest, everything delivered: the key generation completes (reported under
+					// the property this run is made for: C08's slice, else C20's own deadlock clause)
+					c.Violation("dkg-completes", strings.ToLower(propName())+"-live-keygen-fails:"+be, fmt.Sprintf("%s schedule %v: two honest parties, every message delivered (party 1's as soon as it is flagged initialised): %v", name, r.Prefix, o.err), replay{Family: name, Variant: "live", Choices: explore.Trim(r.Choices())})
+				}
+				return o.trace, o.deadlock, o.unfin
+			},
+			rp: func(ch []int) replay { return replay{Family: name, Variant: "live", Choices: ch} }})
+	}
 	for _, v := range []string{"keygen", "sign", "keygen-foreign", "sign-foreign"} {
 		v := v
 		name := "tables/" + v
@@ -494,7 +569,10 @@ func gen(c *harness.C) []harness.Case {
 		// crash or wedge it (every interleaving of Init+KeyGen with two early dispatcher threads)
 		var keep []fam
 		for _, f := range fams {
-			if strings.HasPrefix(f.name, "keygen/") && strings.HasSuffix(f.name, "/early") {
+			if strings.HasPrefix(f.name, "keygen/") && (strings.HasSuffix(f.name, "/early") || strings.HasSuffix(f.name, "/during-init")) {
+				if be := os.Getenv("VERIF_BACKENDS"); be != "" && !strings.HasPrefix(f.name, "keygen/"+be+"/") {
+					continue
+				}
 				keep = append(keep, f)
 			}
 		}
